@@ -220,6 +220,37 @@ func (e *Enc) dynamicCall(fr *Frame, st *State, cc *ssa.CallCommon, fnv *Val, ar
 
 // ---------- modular call ----------
 
+// calleeFreshComps: components in which a callee with a body may initialise freshly
+// allocated objects (nil = unknown, assume any).
+func (e *Enc) calleeFreshComps(callee *ssa.Function) map[string]bool {
+	if callee == nil || callee.Blocks == nil {
+		return nil
+	}
+	if m, ok := e.freshMemo[callee]; ok {
+		return m
+	}
+	if e.freshMemo == nil {
+		e.freshMemo = map[*ssa.Function]map[string]bool{}
+	}
+	ws := WS{}
+	allocs, all := false, false
+	for _, b := range callee.Blocks {
+		for _, in := range b.Instrs {
+			e.writeSet(nil, nil, nil, in, ws, &allocs, &all, 1)
+		}
+	}
+	if all {
+		e.freshMemo[callee] = nil
+		return nil
+	}
+	m := map[string]bool{}
+	for k := range ws {
+		m[k] = true
+	}
+	e.freshMemo[callee] = m
+	return m
+}
+
 func (e *Enc) modularCall(fr *Frame, st *State, c *FuncContract, names []string, args []*Val, rt types.Type, site ssa.Instruction, calleeName string, sig *types.Signature) *Val {
 	cname := e.callOrdName(calleeName)
 	vars := map[string]*Val{}
@@ -254,6 +285,12 @@ func (e *Enc) modularCall(fr *Frame, st *State, c *FuncContract, names []string,
 	// allocation frontier (the callee may have initialised objects it allocated); below the
 	// frontier they are unchanged unless listed in modifies. Using a distinct array symbol
 	// keeps "new contents = old contents shifted" facts free of matching loops.
+	var freshComps map[string]bool
+	if cs, ok := site.(ssa.CallInstruction); ok && site != nil {
+		if f := cs.Common().StaticCallee(); f != nil {
+			freshComps = e.calleeFreshComps(f)
+		}
+	}
 	if len(c.Ensures) > 0 {
 		e.rec = map[string]bool{}
 		e.recState = st
@@ -269,8 +306,11 @@ func (e *Enc) modularCall(fr *Frame, st *State, c *FuncContract, names []string,
 		sort.Strings(names)
 		for _, n := range names {
 			srt := e.compSort[n]
-			if !strings.HasPrefix(srt, "(Array Int ") || strings.HasPrefix(n, "GV:") || strings.HasPrefix(n, "L:") {
+			if !strings.HasPrefix(srt, "(Array Int ") || strings.HasPrefix(n, "GV:") || strings.HasPrefix(n, "L:") || e.ghostComps[n] {
 				continue
+			}
+			if freshComps != nil && !freshComps[n] {
+				continue // the callee cannot initialise fresh objects in this component
 			}
 			cur := e.comp(st, n, srt)
 			if cur != e.comp(old, n, srt) {
